@@ -29,7 +29,7 @@ func init() {
 func runC15(c *core.Check) {
 	c.Rule = "every base program (MC_E1 ASTs: quick 146 representatives of every production, thorough all depth-1 ASTs) x every sequence of <= MaxK damages (insert/replace with one of 47 damage tokens: brackets, quotes, template introducers and closers, heredoc markers, keywords, operators, invalid UTF-8, NUL, CR, backtick; delete; truncate; 12 positions), joined with and without spaces, embedded as bare expression, as attribute in a file with a block, and into a JSON document: all 9 entry points return within the watchdog, do not panic, return a non-nil result (or error diagnostics), give deep-equal results and equal diagnostics on a second call, and only well-formed diagnostics with in-bounds ranges; the partial body can be processed with schemas and evaluated without panic; every native parse obeys the peeker protocol of Peeker.tla (checked on all parses through hooks, a sample validated by TLC). Non-trivial = distinct damaged token sequence"
 	c.Assumes = []string{"watchdog 20 s per call", "determinism = reflect.DeepEqual of results and equality of diagnostic texts and ranges"}
-	consts := map[string]string{"MaxK": "1", "BaseMode": "\"few\"", "MaxPos": "5"}
+	consts := map[string]string{"MaxK": "1", "BaseMode": "\"few\"", "MaxPos": "9"}
 	c15.Brief = c.Tier == "quick"
 	if c.Tier == "thorough" {
 		consts = map[string]string{"MaxK": "1", "BaseMode": "\"mid\"", "MaxPos": "11"}
